@@ -113,6 +113,7 @@ type sev =
 | DStoStop of n
 | DTrigger of n
 | DGetFrame of n * ((n * n) * n) option
+| DGetEmpty of n
 | DAppend of n * bool * frm list
 | WMapEnter
 | WMap of bool
